@@ -1551,10 +1551,13 @@ def m_all_any(is_all):
         I.rec.put("quantifier", I.sitekey(frame, bi, -1),
                   dict(fn=frame.body.name, bb=bi, span=span, all=is_all, iter=it if it[0] == "iter" else None,
                        may_true=may_true, may_false=may_false, stack=frame.stack))
+        # `str::split` yields at least one piece: the quantifier is not vacuous
+        nonempty = (it[0] == "iter" and it[1][0] == "av" and it[1][1] is not None and it[1][1][0] == "str"
+                    and it[1][1][1] and all(p[0] == "piece" for p in it[1][1][1]))
         if is_all:
-            vals = [True] + ([False] if may_false else [])
+            vals = ([True] if (may_true or not nonempty) else []) + ([False] if may_false else [])
         else:
-            vals = [False] + ([True] if may_true else [])
+            vals = ([False] if (may_false or not nonempty) else []) + ([True] if may_true else [])
         return [(boolean(vals), merged)]
     return f
 
